@@ -18,8 +18,8 @@ PROPERTY = "C02"
 RULE = ("combi: (d in 1..3 (4 thorough), 1<=lmin<=5, lmax=lmin+0..5 (mostly <=3), box [a,b] per dimension from integers / dyadics / non-dyadic "
         "floats / narrow boxes far from the origin, TrapezoidalGrid boundary on|off, operation Integration|Interpolation, "
         "integrator default|'old', a permutation of the observation blocks integrate / points / call / interpolate_grid / "
-        "points-and-weights, optionally after the same objects have been used for another (lmin,lmax)). The integrand is one vector-valued FunctionCustom = [smooth driver, pseudo-random table on "
-        "the grid points, 3 nodal unit functions, up to 8 random hierarchical hat functions of the scheme's space (biased "
+        "points-and-weights, optionally after the same objects have been used for another (lmin,lmax)). The integrand is "
+        "one vector-valued FunctionCustom = [smooth driver, pseudo-random table on the grid points, 3 nodal unit functions, up to 8 random hierarchical hat functions of the scheme's space (biased "
         "to the deepest admissible levels), one random combination of up to 300 basis functions of the space]. Sizes are "
         "limited by construction through a budget on the total number of component-grid points. Non-trivial = d>=2 and "
         "lmax>lmin (more than one component grid, negative coefficients present) and at least one carried basis function "
@@ -41,10 +41,13 @@ ASSUMPTIONS = [
     "boundary points are off'); with boundary=True this follows from the statement by linearity",
     "the integral of an arbitrary function must equal the integral of its sparse-grid interpolant: follows from the "
     "statement because the quadrature is a weighted sum of values at component-grid points",
-    "interpolation points are generated inside the closed box (scipy's interpn rejects points outside, which is the "
-    "library's documented behaviour for StandardCombi.__call__)",
-    "get_num_points_component_grid is only asked after the grid has been positioned once (set by any points/"
-    "integration call); on a never-used TrapezoidalGrid it raises AttributeError, which no caller in the repository does",
+    "interpolation points are generated inside the closed box [a,b] (the interpolant is only defined there; scipy's interpn, "
+    "which the library delegates to, raises for points outside)",
+    "the sparse-grid-interpolant oracle for arbitrary functions is skipped (counted as class sgi-oracle-skipped(size)) when the "
+    "space has more than 3000 basis functions; the clauses on space functions and on sparse-grid points still apply",
+    "get_num_points_component_grid is only asked after get_points_component_grid has returned the points it is compared "
+    "with; on a TrapezoidalGrid that was never positioned (no points/integration/interpolation call yet) it raises "
+    "AttributeError ('start'), a call order that no caller in the repository uses and that the statement does not cover",
 ]
 TOL = 1e-11
 KRES = 2 ** 32      # resolution of the point identification (relative position in the box)
@@ -264,8 +267,9 @@ def check_structure(out, sub, sc, model, info):
     # clause 5 (second loop on purpose: the grid object is now positioned on the last level vector)
     for cg, (lv, coef, npts) in zip(sc.scheme, per_grid):
         reported = sc.get_num_points_component_grid(cg.levelvector, False)
+        reported2 = sc.get_num_points_component_grid(cg.levelvector, True)
         prod = int(np.prod(sc.grid.levelToNumPoints(cg.levelvector)))
-        if int(reported) != npts or prod != npts:
+        if int(reported) != npts or int(reported2) != npts or prod != npts:
             out.bad(sub + "/count/reported-differs-from-returned-points",
                     "grid %s: get_num_points_component_grid=%s prod(levelToNumPoints)=%s len(points)=%d" % (lv, reported, prod, npts))
         want = int(np.prod([2 ** k + (1 if model.boundary else -1) for k in lv]))
@@ -714,7 +718,7 @@ def selftest():
 
 
 SUBS = [
-    Sub("combi", combi_strategy, run_combi, dict(quick=1600, thorough=10000), budget_s=dict(quick=40, thorough=520),
+    Sub("combi", combi_strategy, run_combi, dict(quick=1400, thorough=10000), budget_s=dict(quick=34, thorough=470),
         fixed_cases=combi_fixed),
-    Sub("scheme", scheme_strategy, run_scheme, dict(quick=800, thorough=6000), budget_s=dict(quick=10, thorough=60)),
+    Sub("scheme", scheme_strategy, run_scheme, dict(quick=800, thorough=6000), budget_s=dict(quick=8, thorough=50)),
 ]
